@@ -38,6 +38,10 @@ run seeded/S-C06c/patch.diff C06
 run seeded/S-C13c/patch.diff C13 C04
 run seeded/S-C15c/patch.diff C15
 run seeded/S-C16c/patch.diff C16
+run seeded/S-C03c/patch.diff C03
+run seeded/S-C05c/patch.diff C05
+run seeded/S-C12c/patch.diff C12
+run seeded/S-C10d/patch.diff C10
 run mutants/W01_write_swallows_io_error.patch C10
 run mutants/W02_write_skips_unrestricted_files.patch C10
 run mutants/W03_write_sorts_model_first.patch C11
